@@ -341,10 +341,18 @@ def run_dro(spec, ctx):
         for e, blk in enumerate(v['partition']):
             for s in blk:
                 zval[s, j] = e
+    # the free component lives left or right of 0.5 depending on the event of variable 0, so
+    # that the optimal rule of the 'switch' variable below has a different slope per event
+    part0 = vs[0]['partition']
+    side = [1 if (DR.event_of(part0, s) % 2 == 0) else -1 for s in range(Sn)]
     for s in range(Sn):
-        lo = np.concatenate([zval[s], [0.0]])
-        hi = np.concatenate([zval[s], [1.0]])
-        (fset[s] if labels is None else fset.loc[labels[s]]).suppset(z >= lo, z <= hi)
+        flo, fhi = (0.6, 1.0) if side[s] > 0 else (0.0, 0.4)
+        lo = np.concatenate([zval[s], [flo]])
+        hi = np.concatenate([zval[s], [fhi]])
+        sel = (fset[s] if labels is None else fset.loc[labels[s]])
+        sel.suppset(z >= lo, z <= hi)
+        sel.exptset(rso.E(z)[nv:] == np.array([(flo + fhi) / 2]))
+    fset.probset(m.p == np.full(Sn, 1.0 / Sn))
     for v, x in zip(vs, xs):
         part = v['partition']
         for bi in v['order'][:-1] if len(part) > 1 else []:
@@ -354,14 +362,23 @@ def run_dro(spec, ctx):
         if v['affine']:
             x.adapt(z[nv])
     t = m.dvar()
+    # switch variable: event-wise (partition of variable 0) and affine in the free component;
+    # xa >= |z_f - 0.5| with E[z_f | s] known  ->  unique optimal rule  side*(z_f - 0.5)
+    xa = m.dvar()
+    for bi in vs[0]['order'][:-1] if len(part0) > 1 else []:
+        blk = part0[bi]
+        lab = blk if labels is None else [labels[i] for i in blk]
+        xa.adapt(lab if len(lab) > 1 else lab[0])
+    xa.adapt(z[nv])
+    m.st(xa >= z[nv] - 0.5, xa >= 0.5 - z[nv])
     if spec['sense'] == 'min':
-        m.minsup(rso.E(t + 0 * z[nv]), fset)
+        m.minsup(rso.E(t + xa), fset)
         m.st(t >= 0.75)
-        objval = 0.75
     else:
-        m.maxinf(rso.E(t + 0 * z[nv]), fset)
+        m.maxinf(rso.E(t - xa), fset)
         m.st(t <= 0.75)
-        objval = 0.75
+    exa = np.mean([0.3 for s in range(Sn)])        # E|z_f - 0.5| = 0.3 in every scenario
+    objval = 0.75 + exa if spec['sense'] == 'min' else 0.75 - exa
     # pin: x_j == sum_e values[e] * L_e(z[j]) is not affine; use the event index directly:
     # values are made affine in the event index by construction below
     vals = []
@@ -478,6 +495,21 @@ def run_dro(spec, ctx):
                     want = at['mult'] * np.asarray(AT.value(a, V[e], params), float) + at['off']
                     gg = got.loc[index[s]] if isinstance(got, pd.Series) else got
                     q.eq('dro convex():' + a, gg, want, shape=False)
+    # the switch variable: constant and slope per scenario label
+    ga, gz = xa.get(), xa.get(z)
+    for s in range(Sn):
+        want0 = -0.5 * side[s]
+        wantz = np.full(nv + 1, np.nan)
+        wantz[nv] = float(side[s])
+        g0 = ga.loc[index[s]] if isinstance(ga, pd.Series) else ga
+        g1 = gz.loc[index[s]] if isinstance(gz, pd.Series) else gz
+        q.eq('dro switch.get[label]', g0, want0, shape=False)
+        q.eq('dro switch.get(z)[label]', np.asarray(g1, float).reshape(-1), wantz)
+    zq = 0.2
+    ca = xa(z.assign(np.concatenate([np.zeros(nv), [zq]])))
+    for s in range(Sn):
+        cc = ca.loc[index[s]] if isinstance(ca, pd.Series) else ca
+        q.eq('dro switch(assign)[label]', cc, side[s] * (zq - 0.5), shape=False)
     feats = {'front': 'dro', 'S': Sn, 'labels': 'int' if labels is None else
              type(labels[0]).__name__,
              'partitions': sorted({len(v['partition']) for v in vs}),
